@@ -332,11 +332,12 @@ def env_recipes(ctx: Ctx, rng: Rng, truth: bool = False) -> List[dict]:
     schedules whose episodes observe different things (and one whose episodes are all alike)."""
     out: List[dict] = []
     scen = rig.SCENARIOS if ctx.thorough else rig.SCENARIOS[:6]
-    eps, steps = ctx.scale(2, 3), ctx.scale(30 if truth else 20, 60)
+    eps, steps = ctx.scale(2, 3), ctx.scale(36 if truth else 20, 60)
 
     def add(family, label, **kw):
         # one recipe in five runs under the process-wide override `NetworkInterface.nmne_config = NMNEConfig(...)` (restored afterwards)
         kw.setdefault("nmne_override", rig.gen_nmne_settings(rng) if rng.chance(1, 5) else None)
+        kw.setdefault("targeted", bool(truth))  # ground-truth runs: events inside the tick aimed at the counted leaves
         out.append(dict({"family": family, "label": label, "traj_seed": rng.next(), "variant_seed": rng.next(), "episodes": eps, "steps": steps,
                          "truth": truth, "chaos": False}, **kw))
     for rel in scen:
@@ -346,7 +347,7 @@ def env_recipes(ctx: Ctx, rng: Rng, truth: bool = False) -> List[dict]:
             add("toggle", f"{short}#toggle{i}", rel=rel, chaos=truth)
         for i in range(ctx.scale(2 if truth else 1, 2)):
             add("regen", f"{short}#regen{i}", rel=rel, chaos=truth)
-    for i in range(ctx.scale(9 if truth else 4, 18)):
+    for i in range(ctx.scale(12 if truth else 4, 18)):
         add("generated", f"generated#{i}", topology=["lan", "routed", "dmz"][i % 3], size=1 + (i // 3) % 2, episodes=2, steps=ctx.scale(20 if truth else 14, 60),
             chaos=truth and i % 3 != 2)
     for rel in env.SCHEDULE_DIRS:
